@@ -1,7 +1,7 @@
 (* C10 / C12 statements restated on the functions regenerated from the source *)
-From Coq Require Import ZArith QArith Qabs.
+From Coq Require Import ZArith QArith Qabs List.
 From LV Require Import Base.Prelude Model.Bezier Model.Winding Model.LineInter Gen.Functions
-  Proofs.C10_Bezier Proofs.C12_LineInter Proofs.Gen_Geom.
+  Proofs.C10_Bezier Proofs.C12_LineInter Proofs.C18_Winding Proofs.Gen_Geom.
 Open Scope Q_scope.
 
 Theorem src_quad_split_retraces : forall c t u,
@@ -53,3 +53,9 @@ Theorem src_line_intersection_complete : forall s o t u,
   ~ shares_endpoint s o -> ~ parallel s o -> meet_at s o t u ->
   exists t' u', src_line_intersection_t s o = Some (t', u') /\ t' == t /\ u' == u.
 Proof. exact inter_complete. Qed.
+
+(* C18 on the generated step: folding the source's test_segment over the edges of a flat path gives the signed crossing
+   number at every point off the outline *)
+Theorem src_hit_wn_spec : forall p path, off_outline p (path_edges path) ->
+  fold_left (fun w e => src_test_segment p (mkLine (fst e) (snd e)) w) (path_edges path) 0%Z = wn p (path_edges path).
+Proof. exact Proofs.C18_Winding.hit_wn_spec. Qed.
